@@ -60,6 +60,7 @@ def strategy():
                'maxHandles': draw(st.integers(1, 6)), 'pruneEvery': draw(st.integers(1, 20)),
                'maxReadPairs': draw(st.sampled_from([None, None, None, 1, 2, n, n + 2, max(1, n // 2)])),
                'gz': draw(st.booleans()), 'lib': draw(st.sampled_from(['libA', 'my-lib_2', 'L' * 40])),
+               'final_newline': draw(st.sampled_from([True, True, False])),
                'rerun': draw(st.sampled_from([False, False, False, True])), 'sep': draw(st.sampled_from(['/', '/', '//', '/./'])),
                'lanes': draw(st.integers(1, 2)), 'chunks': draw(st.integers(1, 3)), 'file_list': draw(st.booleans()),
                'file_order': draw(st.lists(st.integers(0, 5), min_size=0, max_size=6)), 'o_slash': draw(st.booleans())}
@@ -186,9 +187,8 @@ def run_cli(case, lib, d, with_rejects):
         for pat, part in blocks:
             path = os.path.join(indir, pat % (m + 1))
             with gzip.open(path, 'wt') as f:
-                for pair in part:
-                    h, sq, q = pair[m]
-                    f.write('%s\n%s\n+\n%s\n' % (h, sq, q))
+                txt = ''.join('%s\n%s\n+\n%s\n' % pair[m] for pair in part)
+                f.write(txt if cfg.get('final_newline', True) else txt[:-1])
             files.append(path)
     # the order in which the files are named on the command line (or in a file list) is drawn
     keys = cfg.get('file_order') or []
@@ -232,9 +232,8 @@ def run_loader(case, lib, d, with_rejects):
         path = os.path.join(d, 'in_R%d.fastq%s' % (m + 1, '.gz' if cfg['gz'] else ''))
         op = gzip.open if cfg['gz'] else open
         with op(path, 'wt') as f:
-            for pair in lib:
-                h, sq, q = pair[m]
-                f.write('%s\n%s\n+\n%s\n' % (h, sq, q))
+            txt = ''.join('%s\n%s\n+\n%s\n' % pair[m] for pair in lib)
+            f.write(txt if cfg.get('final_newline', True) else txt[:-1])      # some writers leave the last line unterminated
         files.append(path)
     outdir = os.path.join(d, 'out_%s' % ('rej' if with_rejects else 'norej'))
     os.makedirs(outdir)
